@@ -674,7 +674,7 @@ func c17R5(p *Prog, r *Report) {
 func c17R6(p *Prog, r *Report) {
 	const rule = "C17-R6"
 	r.Rule(rule, "query and answer tables agree: the query built with transaction ID k asks for record type T(k); parseMsg's ID case k resets result list L(k) and sets done flag D(k); the answer switch appends records of type T(k) to that same list L(k) — for k in {4, 6}; both queries ask for the looked-up name with recursion desired")
-	sq := p.Func("dns", "Resolver", "sendQueries")
+	sq := p.Inlined(p.Func("dns", "Resolver", "sendQueries"))
 	info := sq.Info()
 	qType := map[int64]string{}
 	ast.Inspect(sq.Body, func(n ast.Node) bool {
